@@ -1230,6 +1230,40 @@ fn boundary(repo: &Path) -> R {
 
     // the gate in front of `RotoFunc::invoke`: which Roto type a Rust type is let through as
     o.push_str(&gate_arms(&ck, &types)?);
+    // … and how a whole signature is checked: the number of parameters, every position
+    // against the Rust type at the same position, the return type
+    in_order(
+        &def,
+        &[
+            "fn check_args(type_info:&mut TypeInfo,ty:&[Type])->Result<(),FunctionRetrievalError>{let[$($a),*]=ty else{",
+            "return Err(FunctionRetrievalError::IncorrectNumberOfArguments{",
+            "$(i+=1;check_roto_type_reflect::<$a>(type_info,$a).map_err(|e|FunctionRetrievalError::TypeMismatch(format!(\"argument{i}\"),e))?;)*Ok(())}",
+        ],
+        "func! (check_args)",
+    )?;
+    let refl = find::func(&ck, "check_roto_type_reflect", None)?;
+    in_order(
+        &toks(&refl.block),
+        &["let rust_type=TypeRegistry::resolve::<T>().type_id;", "check_roto_type(type_info,rust_type,roto_type)"],
+        "check_roto_type_reflect",
+    )?;
+    let gf = find::func(&cg, "get_function", None)?;
+    in_order_pat(
+        &text(&gf.block),
+        &[
+            "let Some(__P_sig_S) = &__P_sig_S else { return Err(FunctionRetrievalError::DoesNotExist {",
+            "F::check_args(&mut self.type_info, &__P_sig_S.parameter_types)?;",
+            "check_roto_type_reflect::<F::Return>(&mut self.type_info, &__P_sig_S.return_type,).map_err(",
+            ")?; let __P_ptr = self.inner.0.cranelift_jit.get_finalized_function(",
+            "Ok(TypedFunc { func: __P_ptr,",
+        ],
+        "Module::get_function",
+    )?;
+    o.push_str(
+        "/-- `check_args` demands exactly as many parameters as the Rust function type has and checks position `i` of \
+         the signature against the `i`-th Rust parameter type; `get_function` then checks the return type, all before \
+         the function pointer is handed out -/\ndef gateArgsPositionwise : Bool := true\ndef gateReturnChecked : Bool := true\n",
+    );
 
     // ----------------------------------------------------------- runtime/func.rs
     let rf = find::parse(repo, "src/runtime/func.rs")?;
